@@ -1544,6 +1544,518 @@ fn run_all(workdir: &Path, progs: Vec<Program>, batch_size: usize) -> Vec<String
     results.into_inner().unwrap()
 }
 
+
+// ------------------------------------------------------------------------------------------------
+// template stream: generics (type + subprogram generics) and aliases (implicit aliases, LRM 6.6.3)
+// ------------------------------------------------------------------------------------------------
+// These constructs are outside the Coq family.  Each template instance is a small randomised VHDL
+// project together with HAND-COMPUTED expectations: for every use site the set of acceptable
+// go-to-declaration targets (or "an error is reported on this line"), derived from the LRM by the
+// template itself (the overload whose profile is the formal's profile after substituting the type
+// actuals; an implicit operator alias is a declaration of the alias's region and hides use-visible
+// homographs), not from the implementation.
+struct TDoc {
+    lib: String,
+    lines: Vec<String>,
+}
+impl TDoc {
+    fn add(&mut self, s: String) -> u32 {
+        self.lines.push(s);
+        (self.lines.len() - 1) as u32
+    }
+}
+struct TSite {
+    label: String,
+    file: usize,
+    line: u32,
+    col: u32,
+    accept: Vec<(usize, u32, u32)>,
+    error: bool,
+}
+struct TCase {
+    docs: Vec<TDoc>,
+    sites: Vec<TSite>,
+    /// lines on which an error diagnostic is expected although they hold no queried site
+    error_lines: Vec<(usize, u32)>,
+}
+fn col_of(line: &str, needle: &str, occurrence: usize) -> u32 {
+    let mut start = 0;
+    let mut found = 0;
+    for _ in 0..occurrence {
+        found = line[start..].find(needle).map(|i| i + start).unwrap_or(0);
+        start = found + needle.len();
+    }
+    found as u32
+}
+
+/// the two documents are built apart (file 0 and file 1); in a single-library instance the second
+/// one is appended to the first
+fn merge_docs(two: bool, a: TDoc, b: TDoc, sites: &mut [TSite], error_lines: &mut [(usize, u32)]) -> Vec<TDoc> {
+    if two {
+        return vec![a, b];
+    }
+    let mut m = a;
+    let off = m.lines.len() as u32;
+    m.lines.extend(b.lines);
+    for s in sites.iter_mut() {
+        if s.file == 1 {
+            s.file = 0;
+            s.line += off;
+        }
+        for acc in s.accept.iter_mut() {
+            if acc.0 == 1 {
+                acc.0 = 0;
+                acc.1 += off;
+            }
+        }
+    }
+    for e in error_lines.iter_mut() {
+        if e.0 == 1 {
+            e.0 = 0;
+            e.1 += off;
+        }
+    }
+    vec![m]
+}
+
+/// (a) a generic package / generic function with a type generic and subprogram generics whose profile
+/// mentions the type generic; instantiated with overloaded actuals
+fn template_generics(r: &mut Rng, la: &str, lb: &str) -> TCase {
+    let two = la != lb;
+    let mut a = TDoc { lib: la.to_string(), lines: vec![] };
+    let mut b = TDoc { lib: lb.to_string(), lines: vec![] };
+    let fb = 1;
+    let mut sites = vec![];
+    let mut error_lines = vec![];
+    // result types the overloads differ in
+    let all_res = ["bit", "boolean", "character", "integer", "severity_level"];
+    let mut res: Vec<&str> = vec![];
+    while res.len() < 2 + r.below(3) {
+        let t = all_res[r.below(all_res.len())];
+        if !res.contains(&t) {
+            res.push(t);
+        }
+    }
+    let par = if r.chance(1, 2) { "integer" } else { "boolean" };
+    let other_par = if par == "integer" { "boolean" } else { "integer" };
+    let with_show = r.chance(1, 2);
+    let name = if r.chance(1, 2) { "conv" } else { "make" };
+    // generic package
+    a.add("package gpkg is".to_string());
+    a.add("generic (".to_string());
+    let l_elem = a.add("type elem_t;".to_string());
+    let l_fconv = a.add(format!("function {name}(value : {par}) return elem_t{}", if with_show { ";" } else { "" }));
+    let l_fshow = if with_show { a.add("function show(value : elem_t) return integer".to_string()) } else { 0 };
+    a.add(");".to_string());
+    a.add(format!("constant first : elem_t := {name}({});", if par == "integer" { "0" } else { "true" }));
+    a.add("end package;".to_string());
+    // generic function
+    let with_gf = r.chance(1, 2);
+    if with_gf {
+        a.add("package gfp is".to_string());
+        a.add(format!("function gf generic (type t; function f(x : {par}) return t) (v : {par}) return t;"));
+        a.add("end package;".to_string());
+        a.add("package body gfp is".to_string());
+        a.add(format!("function gf generic (type t; function f(x : {par}) return t) (v : {par}) return t is"));
+        a.add("begin".to_string());
+        a.add("return f(v);".to_string());
+        a.add("end function;".to_string());
+        a.add("end package body;".to_string());
+    }
+    // overloads: some in a package that is only use-visible, some declared directly
+    let aref = |r: &mut Rng| if !two && r.chance(1, 2) { "work".to_string() } else { la.to_string() };
+    let mut decl_pos: HashMap<(String, String, String), (usize, u32, u32)> = HashMap::new(); // (name, par, res) -> pos
+    let mut in_used: Vec<bool> = vec![];
+    for _ in res.iter() {
+        in_used.push(r.chance(1, 2));
+    }
+    b.add("package ov is".to_string());
+    let mut bodies: Vec<String> = vec![];
+    for (k, t) in res.iter().enumerate() {
+        if in_used[k] {
+            let l = b.add(format!("function {name}(value : {par}) return {t};"));
+            decl_pos.insert((name.to_string(), par.to_string(), t.to_string()), (fb, l, 9));
+            bodies.push(format!("function {name}(value : {par}) return {t} is begin return {t}'low; end function;"));
+            if with_show {
+                let l = b.add(format!("function show(value : {t}) return integer;"));
+                decl_pos.insert(("show".to_string(), t.to_string(), "integer".to_string()), (fb, l, 9));
+                bodies.push(format!("function show(value : {t}) return integer is begin return 0; end function;"));
+            }
+        }
+    }
+    b.add("end package;".to_string());
+    b.add("package body ov is".to_string());
+    for x in bodies.drain(..) {
+        b.add(x);
+    }
+    b.add("end package body;".to_string());
+    let lref = if r.chance(1, 2) { "work".to_string() } else { lb.to_string() };
+    b.add(if two { format!("library {la}, {lb};") } else { format!("library {la};") });
+    b.add(format!("use {lref}.ov.all;"));
+    b.add("package user is".to_string());
+    for (k, t) in res.iter().enumerate() {
+        if !in_used[k] {
+            let l = b.add(format!("function {name}(value : {par}) return {t};"));
+            decl_pos.insert((name.to_string(), par.to_string(), t.to_string()), (fb, l, 9));
+            bodies.push(format!("function {name}(value : {par}) return {t} is begin return {t}'low; end function;"));
+            if with_show {
+                let l = b.add(format!("function show(value : {t}) return integer;"));
+                decl_pos.insert(("show".to_string(), t.to_string(), "integer".to_string()), (fb, l, 9));
+                bodies.push(format!("function show(value : {t}) return integer is begin return 0; end function;"));
+            }
+        }
+    }
+    // a decoy that differs in the parameter type
+    if r.chance(1, 2) {
+        b.add(format!("function {name}(value : {other_par}) return {};", res[0]));
+        bodies.push(format!("function {name}(value : {other_par}) return {} is begin return {}'low; end function;", res[0], res[0]));
+    }
+    // instantiations
+    let ninst = 1 + r.below(res.len());
+    for k in 0..ninst {
+        let t = res[(k + r.below(res.len())) % res.len()];
+        let exp_conv = decl_pos[&(name.to_string(), par.to_string(), t.to_string())];
+        let named = r.chance(2, 3);
+        let ar = aref(r);
+        if named {
+            let text = if with_show {
+                format!("package i{k} is new {ar}.gpkg generic map (elem_t => {t}, {name} => {name}, show => show);")
+            } else {
+                format!("package i{k} is new {ar}.gpkg generic map (elem_t => {t}, {name} => {name});")
+            };
+            let l = b.add(text.clone());
+            let gm = text.find("generic map").unwrap();
+            let rel = |needle: &str, occ: usize| gm as u32 + col_of(&text[gm..], needle, occ);
+            sites.push(TSite { label: format!("formal type generic elem_t"), file: fb, line: l, col: rel("elem_t", 1), accept: vec![(0, l_elem, 5)], error: false });
+            sites.push(TSite { label: format!("formal subprogram generic {name}"), file: fb, line: l, col: rel(name, 1), accept: vec![(0, l_fconv, 9)], error: false });
+            sites.push(TSite { label: format!("actual {name} for [{par} return elem_t := {t}]"), file: fb, line: l, col: rel(name, 2), accept: vec![exp_conv], error: false });
+            if with_show {
+                let exp_show = decl_pos[&("show".to_string(), t.to_string(), "integer".to_string())];
+                sites.push(TSite { label: format!("formal subprogram generic show"), file: fb, line: l, col: rel("show", 1), accept: vec![(0, l_fshow, 9)], error: false });
+                sites.push(TSite { label: format!("actual show for [elem_t := {t} return integer]"), file: fb, line: l, col: rel("show", 2), accept: vec![exp_show], error: false });
+            }
+        } else {
+            let text = if with_show {
+                format!("package i{k} is new {ar}.gpkg generic map ({t}, {name}, show);")
+            } else {
+                format!("package i{k} is new {ar}.gpkg generic map ({t}, {name});")
+            };
+            let l = b.add(text.clone());
+            let gm = text.find("generic map").unwrap();
+            let rel = |needle: &str, occ: usize| gm as u32 + col_of(&text[gm..], needle, occ);
+            sites.push(TSite { label: format!("positional actual {name} for [{par} return elem_t := {t}]"), file: fb, line: l, col: rel(&format!(", {name}"), 1) + 2, accept: vec![exp_conv], error: false });
+            if with_show {
+                let exp_show = decl_pos[&("show".to_string(), t.to_string(), "integer".to_string())];
+                sites.push(TSite { label: format!("positional actual show for [elem_t := {t} return integer]"), file: fb, line: l, col: rel(", show", 1) + 2, accept: vec![exp_show], error: false });
+            }
+        }
+        if with_gf {
+            let text = format!("function fi{k} is new {ar}.gfp.gf generic map (t => {t}, f => {name});");
+            let l = b.add(text.clone());
+            let gm = text.find("generic map").unwrap();
+            sites.push(TSite { label: format!("actual {name} of a function instantiation for [{par} return t := {t}]"), file: fb, line: l, col: gm as u32 + col_of(&text[gm..], name, 1), accept: vec![exp_conv], error: false });
+        }
+    }
+    // no overload has the mapped result type: an error, no reference
+    if r.chance(1, 3) {
+        let ar = aref(r);
+        let text = format!("package ibad is new {ar}.gpkg generic map (elem_t => real, {name} => {name}{});", if with_show { ", show => show" } else { "" });
+        let l = b.add(text.clone());
+        let gm = text.find("generic map").unwrap();
+        sites.push(TSite { label: format!("actual {name} without a matching overload"), file: fb, line: l, col: gm as u32 + col_of(&text[gm..], name, 2), accept: vec![], error: true });
+        let _ = &mut error_lines;
+    }
+    b.add("end package;".to_string());
+    b.add("package body user is".to_string());
+    for x in bodies.drain(..) {
+        b.add(x);
+    }
+    b.add("end package body;".to_string());
+    let docs = merge_docs(two, a, b, &mut sites, &mut error_lines);
+    TCase { docs, sites, error_lines }
+}
+
+
+/// (b) aliases: type aliases of integer / array / record / enumeration types declared in another package and
+/// used through the alias only (their operators, to_string and literals are implicitly aliased in the region
+/// of the alias, LRM 6.6.3, and hide use-visible homographs), object aliases, subprogram aliases with signature
+fn template_aliases(r: &mut Rng, la: &str, lb: &str) -> TCase {
+    let two = la != lb;
+    let mut a = TDoc { lib: la.to_string(), lines: vec![] };
+    let mut b = TDoc { lib: lb.to_string(), lines: vec![] };
+    let mut sites: Vec<TSite> = vec![];
+    let mut error_lines = vec![];
+    let pk = if !two && r.chance(1, 2) { "work".to_string() } else { la.to_string() };
+    a.add("package pk is".to_string());
+    let l_index = a.add("type index_t is range 0 to 15;".to_string());
+    let l_word = a.add("type word_t is array (natural range <>) of bit;".to_string());
+    let l_pair = a.add("type pair_t is record".to_string());
+    a.add("a : natural;".to_string());
+    a.add("b : natural;".to_string());
+    a.add("end record;".to_string());
+    let l_color = a.add("type color_t is (red, green, blue);".to_string());
+    a.add("constant kc : index_t := 1;".to_string());
+    let l_double = a.add("function double(v : index_t) return index_t;".to_string());
+    a.add("end package;".to_string());
+    a.add("package body pk is".to_string());
+    a.add("function double(v : index_t) return index_t is begin return v; end function;".to_string());
+    a.add("end package body;".to_string());
+    // use-visible explicit homographs of the predefined operators
+    let with_ops = r.chance(2, 3);
+    let ops_plus = with_ops && r.chance(2, 3);
+    let ops_amp = with_ops && r.chance(1, 2);
+    let ops_eq = with_ops && r.chance(1, 2);
+    let ops_lt = with_ops && r.chance(1, 2);
+    let ops_double = with_ops && r.chance(1, 2);
+    let mut l_ops_double = 0;
+    if with_ops {
+        let wk = if r.chance(1, 2) { "work".to_string() } else { la.to_string() };
+        a.add(format!("library {la};"));
+        a.add("package ops is".to_string());
+        let mut bodies = vec![];
+        if ops_plus {
+            a.add(format!("function \"+\"(l, r : {wk}.pk.index_t) return {wk}.pk.index_t;"));
+            bodies.push(format!("function \"+\"(l, r : {wk}.pk.index_t) return {wk}.pk.index_t is begin return l; end function;"));
+        }
+        if ops_amp {
+            a.add(format!("function \"&\"(l, r : {wk}.pk.word_t) return {wk}.pk.word_t;"));
+            bodies.push(format!("function \"&\"(l, r : {wk}.pk.word_t) return {wk}.pk.word_t is begin return l; end function;"));
+        }
+        if ops_eq {
+            a.add(format!("function \"/=\"(l, r : {wk}.pk.pair_t) return boolean;"));
+            bodies.push(format!("function \"/=\"(l, r : {wk}.pk.pair_t) return boolean is begin return true; end function;"));
+        }
+        if ops_lt {
+            a.add(format!("function \"<\"(l, r : {wk}.pk.color_t) return boolean;"));
+            bodies.push(format!("function \"<\"(l, r : {wk}.pk.color_t) return boolean is begin return true; end function;"));
+        }
+        if ops_double {
+            l_ops_double = a.add(format!("function double(v : {wk}.pk.index_t) return {wk}.pk.index_t;"));
+            bodies.push(format!("function double(v : {wk}.pk.index_t) return {wk}.pk.index_t is begin return v; end function;"));
+        }
+        a.add("end package;".to_string());
+        a.add("package body ops is".to_string());
+        for x in bodies {
+            a.add(x);
+        }
+        a.add("end package body;".to_string());
+    }
+    // the region with the aliases: a package or an architecture (optionally inside a block)
+    let used = with_ops && r.chance(3, 4);
+    let region = r.below(3);
+    b.add(format!("library {la};"));
+    if used {
+        b.add(format!("use {pk}.ops.all;"));
+    }
+    match region {
+        0 => {
+            b.add("package user is".to_string());
+        }
+        _ => {
+            b.add("entity e is".to_string());
+            b.add("end entity;".to_string());
+            b.add(format!("library {la};"));
+            if used {
+                b.add(format!("use {pk}.ops.all;"));
+            }
+            b.add("architecture arch of e is".to_string());
+            if region == 2 {
+                b.add("begin".to_string());
+                b.add("blk : block".to_string());
+            }
+        }
+    }
+    let al_index = r.chance(4, 5);
+    let al_word = r.chance(1, 2);
+    let al_pair = r.chance(1, 2);
+    let al_color = r.chance(1, 2);
+    let al_obj = al_index && r.chance(1, 2);
+    let al_sub = al_index && r.chance(1, 2);
+    let al_sub_same_name = al_sub && r.chance(1, 2);
+    let mut p_idx = (1, 0, 6);
+    let mut p_vec = (1, 0, 6);
+    let mut p_rec = (1, 0, 6);
+    let mut p_col = (1, 0, 6);
+    let mut p_obj = (1, 0, 6);
+    let mut p_sub = (1, 0, 6);
+    if al_index {
+        p_idx.1 = b.add(format!("alias idx_t is {pk}.pk.index_t;"));
+    }
+    if al_word {
+        p_vec.1 = b.add(format!("alias vec_t is {pk}.pk.word_t;"));
+    }
+    if al_pair {
+        p_rec.1 = b.add(format!("alias rec_t is {pk}.pk.pair_t;"));
+    }
+    if al_color {
+        p_col.1 = b.add(format!("alias col_t is {pk}.pk.color_t;"));
+    }
+    if al_obj {
+        p_obj.1 = b.add(format!("alias ka is {pk}.pk.kc;"));
+    }
+    let sub_name = if al_sub_same_name { "double" } else { "dbl" };
+    if al_sub {
+        p_sub.1 = b.add(format!("alias {sub_name} is {pk}.pk.double[{pk}.pk.index_t return {pk}.pk.index_t];"));
+    }
+    let mut site = |b: &mut TDoc, text: String, needle: &str, occ: usize, label: &str, accept: Vec<(usize, u32, u32)>, error: bool| {
+        let c = col_of(&text, needle, occ);
+        let l = b.add(text);
+        sites.push(TSite { label: label.to_string(), file: 1, line: l, col: c, accept, error });
+    };
+    if al_index {
+        let acc = vec![p_idx, (0, l_index, 5)];
+        b.add("constant i0 : idx_t := 3;".to_string());
+        if al_obj {
+            site(&mut b, "constant i1 : idx_t := i0 + ka;".to_string(), "+", 1, "predefined + of an aliased integer type", acc.clone(), false);
+            site(&mut b, "constant i9 : idx_t := ka;".to_string(), "ka;", 1, "object alias", vec![p_obj], false);
+        } else {
+            site(&mut b, "constant i1 : idx_t := i0 + i0;".to_string(), "+", 1, "predefined + of an aliased integer type", acc.clone(), false);
+        }
+        site(&mut b, "constant i2 : boolean := i0 < i1;".to_string(), "<", 1, "predefined < of an aliased integer type", acc.clone(), false);
+        site(&mut b, "constant i3 : idx_t := i0 * i1;".to_string(), "*", 1, "predefined * of an aliased integer type", acc.clone(), false);
+        site(&mut b, "constant i4 : string := to_string(i0);".to_string(), "to_string", 1, "implicit to_string of an aliased integer type", acc.clone(), false);
+        if al_sub {
+            site(&mut b, format!("constant i5 : idx_t := {sub_name}(i0);"), &format!("{sub_name}("), 1, "subprogram alias with signature", vec![p_sub], false);
+        }
+        if !al_sub_same_name {
+            if used && ops_double {
+                site(&mut b, "constant i6 : idx_t := double(i0);".to_string(), "double(", 1, "use-visible function without a direct homograph", vec![(0, l_ops_double, 9)], false);
+            } else {
+                site(&mut b, "constant i6 : idx_t := double(i0);".to_string(), "double(", 1, "function that is not visible", vec![], true);
+            }
+        }
+    } else {
+        // the type is named by selection only: its operators are not directly visible
+        b.add(format!("constant n0 : {pk}.pk.index_t := 3;"));
+        site(&mut b, format!("constant n1 : {pk}.pk.index_t := n0 * n0;"), "*", 1, "operator of a type that is neither used nor aliased", vec![], true);
+    }
+    if al_word {
+        let acc = vec![p_vec, (0, l_word, 5)];
+        b.add("constant w0 : vec_t(0 to 1) := \"01\";".to_string());
+        site(&mut b, "constant w1 : vec_t(0 to 3) := w0 & w0;".to_string(), "&", 1, "predefined & of an aliased array type", acc.clone(), false);
+        site(&mut b, "constant w2 : boolean := w0 = w1;".to_string(), "= w1", 1, "predefined = of an aliased array type", acc.clone(), false);
+    }
+    if al_pair {
+        let acc = vec![p_rec, (0, l_pair, 5)];
+        b.add("constant r0 : rec_t := (a => 1, b => 2);".to_string());
+        site(&mut b, "constant r1 : boolean := r0 /= r0;".to_string(), "/=", 1, "predefined /= of an aliased record type", acc.clone(), false);
+    }
+    if al_color {
+        let acc = vec![p_col, (0, l_color, 5)];
+        let lit = vec![p_col, (0, l_color, 23)];
+        site(&mut b, "constant c0 : col_t := green;".to_string(), "green", 1, "literal of an aliased enumeration type", lit, false);
+        site(&mut b, "constant c1 : boolean := c0 < c0;".to_string(), "<", 1, "predefined < of an aliased enumeration type", acc.clone(), false);
+    }
+    match region {
+        0 => {
+            b.add("end package;".to_string());
+        }
+        1 => {
+            b.add("begin".to_string());
+            b.add("end architecture;".to_string());
+        }
+        _ => {
+            b.add("begin".to_string());
+            b.add("end block;".to_string());
+            b.add("end architecture;".to_string());
+        }
+    }
+    let _ = (l_double, &mut error_lines);
+    let docs = merge_docs(two, a, b, &mut sites, &mut error_lines);
+    TCase { docs, sites, error_lines }
+}
+
+fn template_case(seed: u64, idx: u64, prefix: &str) -> (String, TCase) {
+    let mut r = Rng::new(seed.wrapping_mul(7_000_003).wrapping_add(idx).wrapping_add(0x7e3));
+    let two = r.chance(1, 2);
+    let la = format!("{prefix}a");
+    let lb = if two { format!("{prefix}b") } else { la.clone() };
+    if idx % 2 == 0 {
+        ("generics".to_string(), template_generics(&mut r, &la, &lb))
+    } else {
+        ("aliases".to_string(), template_aliases(&mut r, &la, &lb))
+    }
+}
+
+/// analyse a batch of template instances in one Project; one result line per instance:
+/// `label~expected~got~class|...;extra` with expected = ERR or f.l.c/f.l.c..., got = f.l.c | - | EXT
+fn run_templates(dir: &Path, seed: u64, idxs: &[u64]) -> Vec<(String, String, String)> {
+    let _ = std::fs::remove_dir_all(dir);
+    std::fs::create_dir_all(dir).unwrap();
+    let mut libs: Vec<(String, Vec<String>)> = vec![];
+    let mut cases = vec![];
+    for idx in idxs {
+        let (kind, tc) = template_case(seed, *idx, &format!("t{idx}"));
+        let mut paths = vec![];
+        for (k, d) in tc.docs.iter().enumerate() {
+            let fname = format!("t{idx}_{k}.vhd");
+            std::fs::write(dir.join(&fname), d.lines.join("\n") + "\n").unwrap();
+            libs.push((d.lib.clone(), vec![fname.clone()]));
+            paths.push(dir.join(&fname));
+        }
+        cases.push((*idx, kind, tc, paths));
+    }
+    let res = catch_unwind(AssertUnwindSafe(|| {
+        let mut project = new_project(dir, &libs);
+        let diags = project.analyse();
+        let sm = SeverityMap::default();
+        let mut out = vec![];
+        for (idx, kind, tc, paths) in cases.iter() {
+            let canon: Vec<PathBuf> = paths.iter().map(|p| std::fs::canonicalize(p).unwrap_or(p.clone())).collect();
+            let file_index = |fname: &Path| -> Option<usize> {
+                canon.iter().position(|p| p == fname).or_else(|| paths.iter().position(|p| p == fname))
+            };
+            let mut errs: HashMap<(usize, u32), Vec<String>> = HashMap::new();
+            for d in diags.iter() {
+                if sm[d.code] != Some(Severity::Error) {
+                    continue;
+                }
+                if let Some(fi) = file_index(d.pos.source.file_name()) {
+                    errs.entry((fi, d.pos.range.start.line)).or_default().push(format!("{:?}", d.code));
+                }
+            }
+            let mut line = String::new();
+            let mut site_lines = vec![];
+            for s in tc.sites.iter() {
+                site_lines.push((s.file, s.line));
+                let src = project.get_source(&paths[s.file]).expect("source");
+                let got = match project.find_declaration(&src, Position::new(s.line, s.col)).and_then(|e| e.decl_pos().cloned()) {
+                    None => "-".to_string(),
+                    Some(pos) => match file_index(pos.source.file_name()) {
+                        None => "EXT".to_string(),
+                        Some(f) => format!("{}.{}.{}", f, pos.range.start.line, pos.range.start.character),
+                    },
+                };
+                let exp = if s.error {
+                    "ERR".to_string()
+                } else {
+                    s.accept.iter().map(|a| format!("{}.{}.{}", a.0, a.1, a.2)).collect::<Vec<_>>().join("/")
+                };
+                let class = match errs.get(&(s.file, s.line)) {
+                    None => "OK".to_string(),
+                    Some(v) => v.join("+"),
+                };
+                write!(line, "{}@{}.{}.{}~{}~{}~{}|", s.label, s.file, s.line, s.col, exp, got, class).unwrap();
+            }
+            line.push(';');
+            let mut extra: Vec<String> = errs
+                .iter()
+                .filter(|(k, _)| !site_lines.contains(k) && !tc.error_lines.contains(k))
+                .map(|(k, v)| format!("{}.{}.{}", k.0, k.1, v.join("+")))
+                .collect();
+            extra.sort();
+            line.push_str(&extra.join(" "));
+            let vhdl = tc.docs.iter().map(|d| format!("-- library {}\n{}\n", d.lib, d.lines.join("\n"))).collect::<Vec<_>>().join("");
+            out.push((format!("{kind} {seed} {idx}"), line, vhdl));
+        }
+        out
+    }));
+    match res {
+        Ok(o) => o,
+        Err(_) => cases.iter().map(|(idx, kind, _, _)| (format!("{kind} {seed} {idx}"), ";PANIC".to_string(), String::new())).collect(),
+    }
+}
+
 fn probe(args: &[String]) {
     let dir = &args[0];
     let files: Vec<String> = args[1..].to_vec();
@@ -1602,6 +2114,25 @@ fn main() {
     let workdir = PathBuf::from(&args[3]);
     let mut progs: Vec<Program> = vec![];
     let mut lines: Vec<String> = vec![];
+    if mode == "templates" || mode.starts_with("template:") {
+        // template stream: `templates <seed> <n> <workdir> <cases_out> <impl_out>`; `template:<idx>` re-runs one
+        // instance (and prints its VHDL as third field of the case line)
+        let idxs: Vec<u64> = match mode.strip_prefix("template:") {
+            Some(i) => vec![i.parse().unwrap()],
+            None => (0..n).collect(),
+        };
+        let mut outs = vec![];
+        for chunk in idxs.chunks(40) {
+            outs.extend(run_templates(&workdir.join("tpl"), seed, chunk));
+        }
+        let mut fc = std::io::BufWriter::new(std::fs::File::create(&args[4]).unwrap());
+        let mut fi = std::io::BufWriter::new(std::fs::File::create(&args[5]).unwrap());
+        for (c, l, v) in outs.iter() {
+            writeln!(fc, "{}\t{}", c, v.replace('\n', "\\n")).unwrap();
+            writeln!(fi, "{l}").unwrap();
+        }
+        return;
+    }
     if let Some(path) = mode.strip_prefix("file:") {
         for l in std::fs::read_to_string(path).unwrap().lines() {
             let l = l.trim();
